@@ -62,7 +62,7 @@ structure UnitLens where
   deriving Repr, DecidableEq
 
 /-- `ElectricPowerSystem.validate_inputs_before_power_balance_calculation`: the number of points of the balance. The consumers' sum
-decides unless it is a single value; then the other series do: status and fixed shares of the sources (`srcStatus`), sharing modes of the storage units and
+decides unless it is a single value; then the other series do: status and fixed shares of the sources and the on/off status of the storage units and PTI/PTOs (`srcStatus`: the balance broadcasts over them), sharing modes of the storage units and
 PTI/PTOs, their power where it is given (D89), positions of the breakers. -/
 def numberPoints (consumers : Nat) (srcStatus : List Nat) (units : List UnitLens) (breakers : List Nat) : Nat :=
   if consumers ≠ 1 then consumers
